@@ -70,6 +70,13 @@ def run(tier, seed):
         expect("^[?@.a]", d, [d] if isinstance(d, dict) and "a" in d else [], what="fake root existence")
         expect("^[0]", d, [d], what="fake root index")
         expect("^", d, [[d]], what="fake root alone")
+    # the fake root in every operand position of a compound query
+    d = {"kind": "order", "items": [1, 2]}
+    expect("$.items[*] | ^[?@.kind == 'order']", d, [1, 2, d], what="fake root after |")
+    expect("^[?@.kind == 'order'] | $.items[*]", d, [d, 1, 2], what="fake root before |")
+    expect("^[?@.kind == 'order'] & ^[?@.items]", d, [d], what="fake root on both sides of &")
+    expect("$.items[*] | $.kind | ^[?@.items]", d, [1, 2, "order", d], what="fake root as third operand")
+    expect("$.nope | ^", d, [[d]], what="bare fake root after |")
     # current key identifier
     expect("$[?# == 'a']", {"a": 1, "b": 2}, [1], what="current key (member name)")
     expect("$[?# == 0]", [7, 8], [7], what="current key (index 0)")
